@@ -63,6 +63,14 @@ def make_cases(rng, tier):
                         cases.append(mk("general", th, eta, om, t1, t2))
                         if t1[2] * t2[2] <= 65 * 25:
                             cases.append(mk("quart", th, eta, om, t1, t2))
+    # omega exactly 0 or pi for EVERY (theta, eta) of the lattice: cos(omega) comes out as +-(1 + 2e-16) for a few per cent of them
+    # (either side), which an arccos that is not clipped on that side turns into NaN
+    for th in TH:
+        for eta in A:
+            for om in ((1, 0, 1), (-1, 0, 1)):
+                cases.append(mk("plain", th, eta, om, (1, 0, 1), (1, 0, 1)))
+                if tier == "thorough":
+                    cases.append(mk("wedge", th, eta, om, (1, 0, 1), (1, 0, 1)))
     # scattering vectors within a fraction of a degree of the rotation axis at low Bragg angle: the discriminant of
     # a cos w + b sin w = c is of order sin^2(theta) eta^2 = 1e-9 .. 1e-7 in absolute terms while the two roots are well separated
     # (relative discriminant eta^2 / (theta^2 + eta^2) ~ 0.5): an absolute cut on the discriminant loses these reflections
